@@ -267,3 +267,22 @@ PROPS["C20"] = {
         leg("twice", "c20_suspend", (1, 2), {"kind": "twice"}, what="the same task suspends twice", weight=2.0),
     ],
 }
+
+# ------------------------------------------------------------------------------------------------ C16
+PROPS["C16"] = {
+    "explanation": "(1) Explicit-state BFS over the real market/arena objects (3 arenas, priorities 0/1/1): events are the protocol-level demand changes of advertise_new_work / "
+                   "out_of_work / nested arenas plus set_active_num_workers(L in {0,1,2,4}); the reachable state space saturates (864 canonical states) and every state satisfies the "
+                   "allotment invariants. (2) Real scheduler: task_arena(2,1) with three external entrants + enqueue (slot uniqueness, index < max_concurrency, reserved slots, "
+                   "concurrency bound), task_arena(1) incl. the mandatory worker, observer entry/exit pairing, isolation, global_control limits 1..3.",
+    "legs": [
+        leg("allotment-bfs", "c16_allot", (8, 12), {}, flags=(), what="BFS over the real market: all reachable demand/limit states of three arenas"),
+        leg("rt-slots", "c16_rt", (1, 2), {"kind": "slots"}, what="task_arena(2,1): two external entrants + main execute + enqueue", weight=3.0),
+        leg("rt-arena1", "c16_rt", (1, 2), {"kind": "arena1"}, what="task_arena(1): three external threads call execute", weight=2.0),
+        leg("rt-enqueue1", "c16_rt", (2, 3), {"kind": "enqueue1"}, what="task_arena(1) with enqueued work: the single extra worker"),
+        leg("rt-observer", "c16_rt", (1, 2), {"kind": "observer"}, what="observer entry/exit pairing on every thread", weight=3.0),
+        leg("rt-isolate", "c16_rt", (2, 3), {"kind": "isolate"}, what="waiter inside isolate never runs outer tasks"),
+        leg("rt-gc1", "c16_rt", (2, 3), {"kind": "gc", "L": 1}, what="max_allowed_parallelism 1: no worker runs user work"),
+        leg("rt-gc2", "c16_rt", (2, 3), {"kind": "gc", "L": 2}, what="max_allowed_parallelism 2: at most one worker"),
+        leg("rt-gc3", "c16_rt", (2, 2), {"kind": "gc", "L": 3}, what="max_allowed_parallelism 3: at most two workers"),
+    ],
+}
